@@ -95,7 +95,7 @@ def gen_case(rng):
 
 
 def cases(rng, tier):
-	n = 40000 if tier == 'thorough' else 1500
+	n = 40000 if tier == 'thorough' else 4000
 	for _ in range(n):
 		yield gen_case(rng)
 
